@@ -215,6 +215,18 @@ CHECKS.update({
         design_ref='DESIGN.md §3.4, §4 C05', note=OAL_NOTE + '; ' + BP_NOTE),
 })
 
+
+CHECKS.update({
+    'C06': dict(
+        technique='OalType.tla (OAL typing TypeOf, value entries, statement predecessor/block StmtInfo, variable declarations VarInfo, '
+                  'parameter succession ParamPairs over OalSyntax!Ranges) evaluated by TLC on every prebuilt body and compared '
+                  '(OalTypeTrace.tla) with the population read back from the ooaofooa model: persisted Previous_Statement_ID / '
+                  'Next_Value_ID, line and columns, related data types, declaring blocks, subtype counts, constraint violations',
+        text='Typing and structure are defined on the syntax tree by the specification and checked on the C05 corpus in all four '
+             'action homes; the referential attributes are read as persisted, so a chain built in the wrong direction is a mismatch.',
+        design_ref='DESIGN.md §3.4, §4 C06', note=OAL_NOTE + '; ' + BP_NOTE + '; the read-back in vt/adapters/prebuildfacts.py'),
+})
+
 NOT_YET = {}
 
 
